@@ -35,6 +35,12 @@ SUBFAMILIES = {
                            [['map', 'none_if_odd'], ['assert_1', 'first_not_none'], ['count']]],
 }
 opspecs.FUNCS.setdefault('first_not_none', lambda a, b: a is not None)
+SUBFAMILIES['variants'] = [
+    [['clip', None, 1]], [['clip', 1, None]], [['clip', None, None]], [['clip', 1, 1], ['count']], [['map', 'tofloat'], ['clip', None, 0.5], ['sum']],
+    [['map', 'to_pt'], ['fill_none', 5], ['map', 'pt_sum']], [['map', 'to_pt'], ['fill_none', 0], ['map', 'pt_sum'], ['duc']],
+    [['progress_t', 1]], [['progress_t', 2], ['count']], [['scan', 'add', '0'], ['progress_t', 3], ['last']],
+    [['to_array', 'd'], ['map', 'len']] if False else [['map', 'tofloat'], ['to_array', 'd']],
+]
 
 
 def inputs(tier):
